@@ -1,1 +1,389 @@
-use crate::Ctx; pub fn run(_cx: &mut Ctx) {}
+//! Domain ACC: convenience accessors and coap-message trait views – C19.
+//!   ACC req <op;op;...>   ops on a CoapRequest (and its response message):
+//!        addraw n hex | path hex | method b | status b | obsflag n | cf n | clr n
+//!        getpath | getvec | raw n | getobs | getcf | getmethod | getstatus | code
+//!   ACC view <pkt>        coap-message 0.2 and 0.3 read views
+//!   ACC copy <pkt>        set_from_message through 0.2 and through 0.3 into a fresh Packet
+use crate::pkt::{dump, parse_val, val_token, CodeSpec, PktSpec};
+use crate::uint::utf8_ok;
+use crate::{guarded, hex, Ctx, Rng};
+use coap_lite::{CoapOption, CoapRequest, CoapResponse, ContentFormat, MessageClass, ObserveOption, Packet};
+use std::collections::BTreeMap;
+use std::convert::TryFrom;
+
+fn min_be(mut v: u64) -> Vec<u8> {
+    let mut out = vec![];
+    while v > 0 {
+        out.push((v & 0xff) as u8);
+        v >>= 8;
+    }
+    out.reverse();
+    out
+}
+
+fn req_case(cx: &mut Ctx, ops: &[String]) {
+    let line = format!("ACC req {}", ops.join(";"));
+    let r = guarded(|| {
+        let mut req: CoapRequest<u8> = CoapRequest::new();
+        let mut resp = CoapResponse::new(&Packet::new()).unwrap();
+        let mut outs: Vec<String> = vec![];
+        for op in ops {
+            let f: Vec<&str> = op.split(' ').collect();
+            match f[0] {
+                "addraw" => req.message.add_option(CoapOption::from(f[1].parse::<u16>().unwrap()), parse_val(f[2])),
+                "clr" => req.message.clear_option(CoapOption::from(f[1].parse::<u16>().unwrap())),
+                "path" => req.set_path(std::str::from_utf8(&parse_val(f[1])).unwrap()),
+                "method" => {
+                    if let MessageClass::Request(m) = MessageClass::from(f[1].parse::<u8>().unwrap()) {
+                        req.set_method(m)
+                    }
+                }
+                "status" => {
+                    if let MessageClass::Response(s) = MessageClass::from(f[1].parse::<u8>().unwrap()) {
+                        resp.set_status(s)
+                    }
+                }
+                "obsflag" => req.set_observe_flag(ObserveOption::try_from(f[1].parse::<usize>().unwrap()).unwrap()),
+                "cf" => req.message.set_content_format(ContentFormat::try_from(f[1].parse::<usize>().unwrap()).unwrap()),
+                "getpath" => outs.push(hex(req.get_path().as_bytes())),
+                "getvec" => outs.push(match req.get_path_as_vec() {
+                    Ok(v) => format!("[{}]", v.iter().map(|s| hex(s.as_bytes())).collect::<Vec<_>>().join(",")),
+                    Err(_) => "err".into(),
+                }),
+                "raw" => outs.push(match req.message.get_option(CoapOption::from(f[1].parse::<u16>().unwrap())) {
+                    None => "none".into(),
+                    Some(l) => format!("[{}]", l.iter().map(|v| val_token(v)).collect::<Vec<_>>().join(",")),
+                }),
+                "getobs" => outs.push(match req.get_observe_flag() {
+                    None => "none".into(),
+                    Some(Ok(f)) => format!("{:?}", f),
+                    Some(Err(_)) => "err".into(),
+                }),
+                "getcf" => outs.push(match req.message.get_content_format() {
+                    None => "none".into(),
+                    Some(c) => format!("{:?}", c),
+                }),
+                "getmethod" => outs.push(format!("{:?}", req.get_method())),
+                "getstatus" => outs.push(format!("{:?}", resp.get_status())),
+                "code" => outs.push(format!("{} {}", u8::from(req.message.header.code), u8::from(resp.message.header.code))),
+                _ => panic!("bad op"),
+            }
+        }
+        outs
+    });
+    // ---- reference: raw option multimap + code bytes
+    let reg = crate::tbl::load_registry();
+    let name_of = |tbl: &str, n: u64| reg.tables.get(tbl).and_then(|t| t.get(&n)).cloned();
+    let mut opts: BTreeMap<u16, Vec<Vec<u8>>> = BTreeMap::new();
+    let mut code_req: u8 = 1;
+    let mut code_resp: u8 = 0x45;
+    let mut want: Vec<String> = vec![];
+    let mut comparable = true;
+    for op in ops {
+        let f: Vec<&str> = op.split(' ').collect();
+        match f[0] {
+            "addraw" => opts.entry(f[1].parse().unwrap()).or_default().push(parse_val(f[2])),
+            "clr" => {
+                if let Some(l) = opts.get_mut(&f[1].parse().unwrap()) {
+                    l.clear()
+                }
+            }
+            "path" => {
+                let s = String::from_utf8(parse_val(f[1])).unwrap();
+                let mut segs: Vec<&str> = s.split('/').collect();
+                if segs[0].is_empty() {
+                    segs.remove(0);
+                }
+                if let Some(l) = opts.get_mut(&11) {
+                    l.clear()
+                }
+                for x in segs {
+                    opts.entry(11).or_default().push(x.as_bytes().to_vec());
+                }
+            }
+            "method" => {
+                let b: u8 = f[1].parse().unwrap();
+                if name_of("methods", b as u64).is_some() {
+                    code_req = b
+                }
+            }
+            "status" => {
+                let b: u8 = f[1].parse().unwrap();
+                if name_of("responses", b as u64).is_some() {
+                    code_resp = b
+                }
+            }
+            "obsflag" => {
+                opts.insert(6, vec![min_be(f[1].parse().unwrap())]);
+            }
+            "cf" => {
+                opts.insert(12, vec![min_be(f[1].parse().unwrap())]);
+            }
+            "getpath" => {
+                let segs: Vec<String> = opts.get(&11).map(|l| l.iter().filter(|b| utf8_ok(b)).map(|b| String::from_utf8(b.clone()).unwrap()).collect()).unwrap_or_default();
+                want.push(hex(segs.join("/").as_bytes()));
+            }
+            "getvec" => {
+                let l = opts.get(&11).cloned().unwrap_or_default();
+                if l.iter().all(|b| utf8_ok(b)) {
+                    want.push(format!("[{}]", l.iter().map(|b| hex(b)).collect::<Vec<_>>().join(",")));
+                } else {
+                    want.push("err".into());
+                }
+            }
+            "raw" => want.push(match opts.get(&f[1].parse().unwrap()) {
+                None => "none".into(),
+                Some(l) => format!("[{}]", l.iter().map(|v| val_token(v)).collect::<Vec<_>>().join(",")),
+            }),
+            "getobs" => want.push(match opts.get(&6).and_then(|l| l.first()) {
+                None => "none".into(),
+                Some(b) if b.len() > 4 => "err".into(),
+                Some(b) => {
+                    let v = b.iter().fold(0u64, |a, &x| (a << 8) | x as u64);
+                    name_of("observe", v).unwrap_or("err".into())
+                }
+            }),
+            "getcf" => want.push(match opts.get(&12).and_then(|l| l.first()) {
+                None => "none".into(),
+                Some(b) if b.len() > 2 => "none".into(),
+                Some(b) => {
+                    let v = b.iter().fold(0u64, |a, &x| (a << 8) | x as u64);
+                    name_of("content_formats", v).unwrap_or("none".into())
+                }
+            }),
+            "getmethod" => want.push(name_of("methods", code_req as u64).unwrap_or("UnKnown".into())),
+            "getstatus" => want.push(name_of("responses", code_resp as u64).unwrap_or("UnKnown".into())),
+            "code" => want.push(format!("{} {}", code_req, code_resp)),
+            _ => comparable = false,
+        }
+    }
+    match &r {
+        None => {
+            cx.case(&line, "panic");
+            cx.oracle_fail("C19", &line, "accessor sequence panicked");
+        }
+        Some(outs) => {
+            let s = outs.join(" / ");
+            cx.case(&line, &s);
+            cx.nontrivial(&line);
+            if comparable && s != want.join(" / ") {
+                cx.oracle_fail("C19", &line, &format!("accessors show {} but the raw-state reference gives {}", s, want.join(" / ")));
+            }
+        }
+    }
+}
+
+fn view02(p: &Packet) -> String {
+    use coap_message::{MessageOption, ReadableMessage};
+    let code: u8 = ReadableMessage::code(p).into();
+    let opts: Vec<String> = ReadableMessage::options(p).map(|o| format!("{}:{}", o.number(), val_token(o.value()))).collect();
+    format!("c{} o[{}] p{}", code, opts.join(","), val_token(ReadableMessage::payload(p)))
+}
+
+fn view03(p: &Packet) -> String {
+    use coap_message_0_3::{MessageOption, ReadableMessage};
+    let code: u8 = ReadableMessage::code(p).into();
+    let opts: Vec<String> = ReadableMessage::options(p).map(|o| format!("{}:{}", o.number(), val_token(o.value()))).collect();
+    format!("c{} o[{}] p{}", code, opts.join(","), val_token(ReadableMessage::payload(p)))
+}
+
+fn copy02(src: &Packet) -> Packet {
+    use coap_message::MinimalWritableMessage;
+    let mut d = Packet::new();
+    d.set_from_message(src);
+    d
+}
+
+fn copy03(src: &Packet) -> Packet {
+    use coap_message_0_3::MinimalWritableMessage;
+    let mut d = Packet::new();
+    d.set_from_message(src).unwrap();
+    d
+}
+
+fn view_case(cx: &mut Ctx, spec: &PktSpec, cleared: &[u16]) {
+    let cl = if cleared.is_empty() { "_".to_string() } else { cleared.iter().map(|n| n.to_string()).collect::<Vec<_>>().join(",") };
+    let build = || {
+        let mut p = spec.build();
+        for n in cleared {
+            p.clear_option(CoapOption::from(*n));
+        }
+        p
+    };
+    // reference: ascending number order, per-number insertion order
+    let mut so = spec.sorted_opts();
+    so.retain(|(n, _)| !cleared.contains(n));
+    let want = format!(
+        "c{} o[{}] p{}",
+        spec.code.byte(),
+        so.iter().map(|(n, v)| format!("{}:{}", n, val_token(v))).collect::<Vec<_>>().join(","),
+        val_token(&spec.payload)
+    );
+    let line = format!("ACC view {} {}", cl, spec.line());
+    let r = guarded(|| {
+        let p = build();
+        (view02(&p), view03(&p))
+    });
+    match &r {
+        None => cx.case(&line, "panic"),
+        Some((a, b)) => {
+            cx.case(&line, &format!("{} | {}", a, b));
+            cx.nontrivial(&line);
+            if spec.tok.len() <= 15 && (*a != want || *b != want) {
+                cx.oracle_fail("C19", &line, &format!("coap-message view shows {} / {} instead of {}", a, b, want));
+            }
+        }
+    }
+    let line = format!("ACC copy {} {}", cl, spec.line());
+    let r = guarded(|| {
+        let p = build();
+        (copy02(&p), copy03(&p))
+    });
+    match &r {
+        None => cx.case(&line, "panic"),
+        Some((a, b)) => {
+            cx.case(&line, &format!("{} | {}", dump(a), dump(b)));
+            for q in [a, b] {
+                if view02(q) != want {
+                    cx.oracle_fail("C19", &line, &format!("message copied through the generic interface shows {} instead of {}", view02(q), want));
+                }
+            }
+        }
+    }
+}
+
+fn all_strings(alpha: &[&str], maxlen: usize, f: &mut dyn FnMut(&str)) {
+    fn rec(alpha: &[&str], cur: &mut String, left: usize, f: &mut dyn FnMut(&str)) {
+        f(cur);
+        if left == 0 {
+            return;
+        }
+        for a in alpha {
+            let l = cur.len();
+            cur.push_str(a);
+            rec(alpha, cur, left - 1, f);
+            cur.truncate(l);
+        }
+    }
+    rec(alpha, &mut String::new(), maxlen, f);
+}
+
+pub fn run(cx: &mut Ctx) {
+    let thorough = cx.tier_thorough;
+    let mut rng = Rng(cx.seed ^ 0x414343);
+    // every named and unnamed code byte through set_method / set_status
+    for b in 0..=255u8 {
+        req_case(cx, &[format!("method {}", b), "getmethod".into(), "code".into()]);
+        req_case(cx, &[format!("status {}", b), "getstatus".into(), "code".into()]);
+    }
+    cx.exhaustive.push("set/get of every named method and status (all 256 code bytes tried)".into());
+    // content formats: every id 0..65535 that is named (plus set twice, set after raw add)
+    let reg = crate::tbl::load_registry();
+    let cfs: Vec<u64> = reg.tables.get("content_formats").map(|t| t.keys().cloned().collect()).unwrap_or_default();
+    for &c in &cfs {
+        req_case(cx, &[format!("cf {}", c), "getcf".into(), "raw 12".into()]);
+        let other = *rng.pick(&cfs);
+        req_case(cx, &[format!("cf {}", other), format!("cf {}", c), "getcf".into(), "raw 12".into()]);
+        let k = rng.below(4) as usize;
+        req_case(cx, &[format!("addraw 12 {}", hex(&rng.bytes(k))), format!("cf {}", c), "getcf".into(), "raw 12".into()]);
+    }
+    // raw content-format bytes through the getter
+    for n in 0..=3usize {
+        for _ in 0..200 {
+            req_case(cx, &[format!("addraw 12 {}", hex(&rng.bytes(n))), "getcf".into()]);
+        }
+    }
+    cx.exhaustive.push("every named content format: set, set twice, set after raw add".into());
+    // observe flag
+    for f in 0..2 {
+        req_case(cx, &[format!("obsflag {}", f), "getobs".into(), "raw 6".into()]);
+        req_case(cx, &[format!("addraw 6 {}", hex(&rng.bytes(3))), format!("obsflag {}", f), "getobs".into(), "raw 6".into()]);
+        req_case(cx, &[format!("obsflag {}", 1 - f), format!("obsflag {}", f), "getobs".into(), "raw 6".into()]);
+    }
+    req_case(cx, &["getobs".into()]);
+    for n in 0..=6usize {
+        for a in [0u8, 1, 2, 3, 0xff] {
+            let mut v = vec![0u8; n];
+            if n > 0 {
+                v[n - 1] = a;
+            }
+            req_case(cx, &[format!("addraw 6 {}", hex(&v)), "getobs".into()]);
+            let mut v2 = rng.bytes(n);
+            if n > 0 {
+                v2[0] = a;
+            }
+            req_case(cx, &[format!("addraw 6 {}", hex(&v2)), "getobs".into()]);
+        }
+    }
+    // paths: exhaustive over {'/', 'a', '.', two-byte char} to length 6 (5 quick), whatever was there before
+    let alpha = ["/", "a", ".", "\u{e9}"];
+    let maxlen = if thorough { 6 } else { 5 };
+    let mut paths: Vec<String> = vec![];
+    all_strings(&alpha, maxlen, &mut |s| paths.push(s.to_string()));
+    for (i, s) in paths.iter().enumerate() {
+        let mut ops: Vec<String> = vec![];
+        match i % 4 {
+            1 => ops.push("addraw 11 78".into()),
+            2 => {
+                ops.push("addraw 11 ff".into());
+                ops.push("addraw 11 79".into());
+            }
+            3 => ops.push(format!("path {}", hex(paths[(i * 7919) % paths.len()].as_bytes()))),
+            _ => {}
+        }
+        ops.push(format!("path {}", hex(s.as_bytes())));
+        ops.push("getpath".into());
+        ops.push("getvec".into());
+        ops.push("raw 11".into());
+        req_case(cx, &ops);
+    }
+    cx.exhaustive.push(format!("every path string over {{/, a, ., e-acute}} up to length {}", maxlen));
+    let n = if thorough { 20000 } else { 4000 };
+    for _ in 0..n {
+        let len = rng.below(12) as usize;
+        let mut s = String::new();
+        for _ in 0..len {
+            s.push(*rng.pick(&['/', '/', 'a', 'b', '.', '%', ' ', '\u{e9}', '\u{20ac}', '\u{1f601}', '?', '#']));
+        }
+        req_case(cx, &[format!("path {}", hex(s.as_bytes())), "getpath".into(), "getvec".into(), "raw 11".into()]);
+    }
+    // non-UTF-8 raw segments through the getters
+    for _ in 0..500 {
+        let k = rng.range(1, 3) as usize;
+        let mut ops: Vec<String> = vec![];
+        for _ in 0..k {
+            let n = rng.below(4) as usize;
+            let mut v = rng.bytes(n);
+            if rng.chance(1, 2) {
+                v = b"ok".to_vec();
+            }
+            ops.push(format!("addraw 11 {}", hex(&v)));
+        }
+        ops.push("getpath".into());
+        ops.push("getvec".into());
+        req_case(cx, &ops);
+    }
+    // coap-message views / copies on random messages
+    let nv = if thorough { 20000 } else { 4000 };
+    for _ in 0..nv {
+        let tkl = rng.below(9) as usize;
+        let nopts = rng.below(6) as usize;
+        let mut opts = vec![];
+        for _ in 0..nopts {
+            let num = *rng.pick(&[1u16, 4, 6, 11, 11, 12, 15, 23, 27, 60, 258, 300, 65535, 0]);
+            let k = rng.below(5) as usize;
+            opts.push((num, rng.bytes(k)));
+        }
+        let cleared: Vec<u16> = if rng.chance(1, 4) && !opts.is_empty() { vec![opts[0].0] } else { vec![] };
+        let code = match rng.below(6) {
+            0 => CodeSpec::Byte(rng.below(256) as u8),
+            1 => CodeSpec::Reserved(rng.below(256) as u8),
+            2 => CodeSpec::UnkReq,
+            3 => CodeSpec::UnkResp,
+            _ => CodeSpec::Byte(*rng.pick(&[1u8, 2, 0x45, 0x84, 0])),
+        };
+        let pl = rng.below(6) as usize;
+        let spec = PktSpec { vtt: 0x40 | tkl as u8, code, mid: rng.below(65536) as u16, tok: rng.bytes(tkl), opts, payload: rng.bytes(pl) };
+        view_case(cx, &spec, &cleared);
+    }
+}
